@@ -247,8 +247,8 @@ def execute(case):
                 if fault["kind"] != "write_short":
                     if exc is None:
                         probes["write_fault_swallowed"] = probes.get("write_fault_swallowed", 0) + 1
-                    elif not Y.startswith(part):
-                        violations.append(_v("aborted_save_wrote_prefix", when=when, detail={"op": i}))
+                    elif not Y.startswith(part):  # not part of the statement: a probe only
+                        probes["aborted_save_did_not_write_a_prefix"] = probes.get("aborted_save_did_not_write_a_prefix", 0) + 1
                 Yc, exc2, _, _ = save(obj)
                 if exc2 is not None or Yc != Y:
                     d = first_diff_chunk(Y, Yc) if exc2 is None else {"chunk": "exception"}
